@@ -137,14 +137,26 @@ class Interp:
 
     def _make_function(self, fd: ast.FunctionDef) -> Any:
         outer = self
-        params = [a.arg for a in fd.args.args]
+        params = [a.arg for a in fd.args.posonlyargs + fd.args.args]
         defaults = [outer.ev(d) for d in fd.args.defaults]
+        kwonly = [a.arg for a in fd.args.kwonlyargs]
+        kwdefaults = {a.arg: outer.ev(d) for a, d in zip(fd.args.kwonlyargs, fd.args.kw_defaults) if d is not None}
+        vararg = fd.args.vararg.arg if fd.args.vararg else None
+        kwarg = fd.args.kwarg.arg if fd.args.kwarg else None
 
         def fn(*args: Any, **kwargs: Any) -> Any:
             env = {k: v for k, v in outer.env.items() if k != "__builtins__"}
             vals = dict(zip(params[len(params) - len(defaults):], defaults))
+            vals.update(kwdefaults)
             vals.update(dict(zip(params, args)))
-            vals.update(kwargs)
+            if vararg is not None:
+                vals[vararg] = tuple(args[len(params):])
+            extra = {k: v for k, v in kwargs.items() if k not in params and k not in kwonly}
+            vals.update({k: v for k, v in kwargs.items() if k in params or k in kwonly})
+            if kwarg is not None:
+                vals[kwarg] = extra
+            else:
+                vals.update(extra)
             env.update(vals)
             sub = Interp(env, outer.max_steps, outer.behaviours[3:])
             is_gen = _own_yield(fd)
